@@ -58,6 +58,7 @@ def configs(tier, seed):
 def check_config(ctx, cfg):
     from amaranth_soc.wishbone.sram import WishboneSRAM
     try:
+        gran_arg = None if (cfg["g"] == cfg["dw"] and cfg["size"] % 4 == 0) else cfg["g"]       # the documented default spelling
         init = cfg["init"]
         if cfg.get("init_as") == "generator":
             init = (v for v in cfg["init"])
@@ -66,10 +67,10 @@ def check_config(ctx, cfg):
         elif cfg.get("init_as") == "iter":
             init = iter(list(cfg["init"]))
         if "ctor_init" in cfg:
-            s = WishboneSRAM(size=cfg["size"], data_width=cfg["dw"], granularity=cfg["g"], writable=cfg["writable"], init=cfg["ctor_init"])
+            s = WishboneSRAM(size=cfg["size"], data_width=cfg["dw"], granularity=gran_arg, writable=cfg["writable"], init=cfg["ctor_init"])
             s.init = init
         else:
-            s = WishboneSRAM(size=cfg["size"], data_width=cfg["dw"], granularity=cfg["g"], writable=cfg["writable"], init=init)
+            s = WishboneSRAM(size=cfg["size"], data_width=cfg["dw"], granularity=gran_arg, writable=cfg["writable"], init=init)
     except (ValueError, TypeError) as e:
         raise Refused(str(e))
     nl = ctx.netlist(s)
